@@ -177,7 +177,7 @@ final outcome. non-trivial = >= 2 requests, or the bound hit exactly, or a relat
     }
 
     fn cases_per_worker(tier: Tier) -> u32 {
-        tier.pick(15_000, 80_000)
+        tier.pick(15_000, 300_000)
     }
 
     fn strategy(_tier: Tier) -> BoxedStrategy<Case> {
